@@ -43,6 +43,7 @@ broadcast use axiom_strb_utf8, axiom_sbytes_utf8, axiom_seal_len, axiom_open_uni
 //@include ../parts/pwin.rs
 //@include ../parts/ssudp.rs
 //@include ../parts/sspayload.rs
+//@include ../parts/config.rs
 //@include ../parts/keys.rs
 //@include ../parts/ssassoc.rs
 } // verus!
